@@ -172,7 +172,9 @@ def matmul_cases(rec, rng, fa, fb, n, k, m):
         expect_call(rec, lambda: a @ b2, "a@b-mismatch", {**ctx, "right_dimensions": list(db2)}, (), None, must_raise=True)
 
 
-def shard(rec, tier, index, n_shards):
+def shard(rec, tier, index, n_shards, leg=None):
+    if leg == "c02leg":
+        index, n_shards, tier = index * 3, 12, "quick"
     rng = random.Random(f"C11-{rec.seed}-{index}")
     sizes = [0, 1, 2, 3, 3, 4]
     work = []
@@ -222,15 +224,17 @@ def shard(rec, tier, index, n_shards):
 
 
 def operator_outputs_for_c02(run, tier):
-    """C02's operator leg: results of the arithmetic operators validated raw (counters c02_*)."""
+    """C02's operator leg: results of the arithmetic operators validated raw (counters c02_*).
+    Runs in subprocesses (a malformed result can crash the reader)."""
     rec = Run(PID, tier, LEVEL, "")
     rec.seed = run.seed
-    for i in range(4):
-        shard(rec, "quick", i * 3, 12)
+    run_shards(rec, "c11", 4, timeout_s=900, extra_args=("c02leg",))
     run.counters["operator_outputs_validated"] = rec.counters.get("c02_operator_outputs_validated", 0)
     for cls, w in rec.violations.items():
-        if cls.startswith("malformed-result"):
+        if cls.startswith("malformed-result") or cls == "process-died":
             run.violation(f"operator-{cls}", w)
+    for r in rec.inconclusive:
+        run.inconclusive_because(r)
     if run.counters["operator_outputs_validated"] < 200:
         run.inconclusive_because("too few operator results validated")
 
